@@ -8,6 +8,13 @@ the dtype of payoff / features / hedge / P&L are compared.  CPU only.
 predicate-only scenarios (not part of the model): casts to complex dtypes in every to() form and in the constructor
 (TypeError, state unchanged); a LISTED derivative on the instrument whose price / Spot feature / hedge P&L are read after
 every operation (so before and after each cast); Hedger.compute_loss / price with n_times in {1,2,3} at the end of a history.
+correspondence with the SYSTEM model (Model/InstrSys.lean, op "instr_sys"): (a) all the sequences above, re-read as histories of a
+system (one primary, the derivative on it, the listed option when there is one) with the result queries the predicate part computes;
+(b) exhaustive sequences (depth 3 over 10 letters; thorough: also depth 4 over 7 letters) of derivative-level operations on a Heston stock with two derivatives of
+different maturities (casts through either, simulation through either with different path counts, list / delist, register_buffer,
+cast to the sibling, ambient default); (c) random systems (1-3 primaries of all 8 classes, 1-3 derivatives of 4 classes sharing
+underliers) with random histories and queries.  After every operation: declared dtype, every buffer's dtype / shape, tensor identity
+against the model's generation numbers, the record of the last simulate; every query: dtype, shape or error kind, exactly.
 """
 import itertools
 from common import *  # noqa
@@ -130,6 +137,13 @@ def observe(torch, inst):
             "buffers": [[n, short(torch, b.dtype)] for n, b in inst.named_buffers()]}
 
 
+def _isys_snapshot(torch, inst, keep):
+    """shapes and the tensor objects of the buffers, the ambient default (for the system model)"""
+    nb = list(inst.named_buffers())
+    keep.extend(b for _, b in nb)
+    return {"shapes": {n: list(b.shape) for n, b in nb}, "objs": {n: b for n, b in nb}, "ambient": short(torch, torch.get_default_dtype())}
+
+
 _EXPU = []
 
 
@@ -158,7 +172,7 @@ def run_case(torch, I, ctx, prim, init, ambient, ops, use_deriv, listed=False, n
         inst = make(torch, I, prim, init)
     except TypeError:
         torch.set_default_dtype(torch.float32)
-        return case, None, [("err", "type_error")]
+        return case, None, [("err", "type_error")], None
     deriv = I.EuropeanOption(inst, maturity=3 / 250) if prim not in ("CIRRate", "VasicekRate") else None
     if deriv is None:
         use_deriv = False
@@ -171,12 +185,14 @@ def run_case(torch, I, ctx, prim, init, ambient, ops, use_deriv, listed=False, n
         lst = I.EuropeanOption(inst, strike=1.05, maturity=3 / 250)
         lst.list(_listed_pricer, cost=1e-4)
     obs0 = observe(torch, inst)
+    keep = []
+    snap0 = _isys_snapshot(torch, inst, keep)
     steps = []
     for op in ops:
         via = (lst or deriv) if (use_deriv and op[0] in ("to", "method", "to_tensor", "to_inst", "to_cplx", "simulate")) else None
         st = apply_op(torch, I, inst, op, via)
         o = observe(torch, inst)
-        extra = {}
+        extra = {"_isys": _isys_snapshot(torch, inst, keep)}
         if st[0] == "ok" and deriv is not None and any(n == "spot" for n, _ in o["buffers"]) and \
                 all(b.shape == inst.spot.shape for _, b in inst.named_buffers()) and inst.spot.dtype.is_floating_point:
             # dtype of computations from the instrument; derivative aliases its underlier
@@ -216,14 +232,542 @@ def run_case(torch, I, ctx, prim, init, ambient, ops, use_deriv, listed=False, n
             with torch.no_grad():
                 h = Hedger(Naked(), ["moneyness", "time_to_maturity", "zeros"])
                 ens["loss"] = short(torch, h.compute_loss(deriv, n_paths=2, n_times=n_times, enable_grad=False).dtype)
+                snap1 = (observe(torch, inst), _isys_snapshot(torch, inst, keep))
                 ens["price"] = short(torch, h.price(deriv, n_paths=2, n_times=n_times).dtype)
+                snap2 = (observe(torch, inst), _isys_snapshot(torch, inst, keep))
                 ens["instrument"] = short(torch, inst.spot.dtype)
                 ens["payoff"] = short(torch, deriv.payoff().dtype)
             steps[-1][2]["ensemble"] = ens
+            steps[-1][2]["_isys_ensemble"] = [snap1, snap2]
         except (RuntimeError, NotImplementedError) as e:
             steps[-1][2]["ensemble_backend"] = str(e)[:60]
     torch.set_default_dtype(torch.float32)
-    return case, obs0, steps
+    return case, obs0, steps, snap0
+
+
+# ==================================================================================================
+# the SYSTEM model (lean/PfVerif/Model/InstrSys.lean, driver op "instr_sys"): primaries, derivatives over them, listed
+# derivatives, hedgers; after every operation the declared dtype, every buffer's dtype / shape / tensor identity and the dtype /
+# shape / error kind of payoff, features, listed price, hedge, portfolio, P&L, loss and price are compared exactly.
+
+ISYS_KIND = {"BrownianStock": "flat", "MertonJumpStock": "flat", "KouJumpStock": "flat", "HestonStock": "stochVar",
+             "RoughBergomiStock": "stochVar", "LocalVolatilityStock": "localVol", "CIRRate": "rate", "VasicekRate": "rate"}
+ISYS_SIM = {"flat": ["spot"], "stochVar": ["spot", "variance"], "localVol": ["spot", "volatility"], "rate": ["spot"]}
+ISYS_DERIV = {"EuropeanOption": "arith", "LookbackOption": "arith", "EuropeanBinaryOption": "indicator", "AmericanBinaryOption": "indicator"}
+ISYS_FEATS = ["moneyness", "log_moneyness", "time_to_maturity", "underlier_spot", "underlier_log_spot", "spot", "volatility", "variance",
+              "zeros", "ones", "empty", "barrier", "max_moneyness", "max_log_moneyness", "prev_hedge"]
+ISYS_DT = 1 / 250
+
+
+def isys_steps(horizon, dt=ISYS_DT):
+    """number of time steps of a simulation over `horizon` (the grid rule; C13 owns it)"""
+    import math
+    return math.ceil(horizon / dt - 1e-8) + 1
+
+
+def isys_kind_of_error(e):
+    """('err', kind) | ('backend', msg): kind of a Python exception as the model names it"""
+    msg = str(e)
+    if isinstance(e, NotImplementedError):
+        return ("backend", msg[:80])
+    if isinstance(e, RecursionError):
+        return ("err", "recursion_error")
+    if isinstance(e, IndexError):
+        return ("err", "index_error")
+    if isinstance(e, RuntimeError):
+        if "same dtype" in msg:
+            return ("err", "runtime_error")          # F.linear on mismatching dtypes
+        if "not implemented for" in msg or "not supported" in msg.lower():
+            return ("backend", msg[:80])
+        return ("err", "runtime_error")
+    if isinstance(e, TypeError):
+        return ("err", "type_error")
+    if isinstance(e, ValueError):
+        return ("err", "value_error")
+    if isinstance(e, AttributeError):
+        return ("err", "attribute_error")
+    if isinstance(e, KeyError):
+        return ("err", "key_error")
+    return ("err", "other:" + type(e).__name__)
+
+
+def isys_feature(name):
+    import pfhedge.features.features as F
+    return {"moneyness": F.Moneyness, "log_moneyness": F.LogMoneyness, "time_to_maturity": F.TimeToMaturity,
+            "underlier_spot": F.UnderlierSpot, "underlier_log_spot": F.UnderlierLogSpot, "spot": F.Spot,
+            "volatility": F.Volatility, "variance": F.Variance, "zeros": F.Zeros, "ones": F.Ones, "empty": F.Empty,
+            "barrier": lambda: F.Barrier(1.0, up=True), "max_moneyness": F.MaxMoneyness, "max_log_moneyness": F.MaxLogMoneyness,
+            "prev_hedge": F.PrevHedge}[name]()
+
+
+class ISysReal:
+    """the real objects of a scenario and the execution of its commands"""
+
+    def __init__(self, torch, I, scen):
+        self.torch, self.I, self.scen = torch, I, scen
+        torch.set_default_dtype(tdt(torch, scen["ambient"]))
+        self.prims = [make(torch, I, cls, init) for cls, init in scen["prims"]]
+        self.derivs = []
+        for cls, ul, msteps in scen["derivs"]:
+            self.derivs.append(getattr(I, cls)(self.prims[ul], maturity=msteps / 250))
+        self.keep = []          # every tensor that ever was a buffer (keeps `id`s distinct)
+
+    # ---- observation
+    def observe(self):
+        torch = self.torch
+        prims, objs = [], []
+        for p in self.prims:
+            nb = list(p.named_buffers())
+            self.keep.extend(b for _, b in nb)
+            prims.append({"declared": None if p.dtype is None else short(torch, p.dtype),
+                          "buffers": [[n, short(torch, b.dtype), list(b.shape)] for n, b in nb]})
+            objs.append({n: b for n, b in nb})
+        return {"prims": prims, "listed": [bool(d.is_listed) for d in self.derivs],
+                "ambient": short(torch, torch.get_default_dtype())}, objs
+
+    # ---- operations
+    def _target(self, t, form):
+        torch, I = self.torch, self.I
+        if t[0] == "dtype":
+            return (torch.device("cpu"),) if t[1] is None else (tdt(torch, t[1]),)
+        if t[0] == "tensor":
+            return (torch.zeros(1, dtype=tdt(torch, t[1])),)
+        if t[0] == "prim":
+            return (self.prims[t[1]],)
+        if t[0] == "deriv":
+            return (self.derivs[t[1]],)
+        return (I.BrownianStock(dtype=tdt(torch, t[1])),)
+
+    def _to(self, obj, t, form):
+        torch = self.torch
+        if t[0] == "dtype" and t[1] in ("f16", "bf16", "f32", "f64") and form == "method":
+            {"f16": obj.half, "bf16": obj.bfloat16, "f32": obj.float, "f64": obj.double}[t[1]]()
+        elif t[0] == "dtype" and t[1] is not None and form == "kw":
+            obj.to(dtype=tdt(torch, t[1]))
+        else:
+            obj.to(*self._target(t, form))
+
+    def _pricer(self, buf, form):
+        if buf == "spot" and form == "intrinsic":
+            return _listed_pricer
+        return lambda d: d.ul().get_buffer(buf) * 0.5 + 0.25
+
+    def apply(self, c, form=None):
+        torch = self.torch
+        try:
+            k = c[0]
+            if k == "prim_to":
+                self._to(self.prims[c[1]], c[2], form)
+            elif k == "deriv_to":
+                self._to(self.derivs[c[1]], c[2], form)
+            elif k == "prim_sim":
+                self.prims[c[1]].simulate(n_paths=c[2], time_horizon=(c[3] - 1) / 250)
+            elif k == "deriv_sim":
+                self.derivs[c[1]].simulate(n_paths=c[2])
+            elif k == "prim_reg":
+                self.prims[c[1]].register_buffer(c[2], torch.ones(*c[4], dtype=tdt(torch, c[3])))
+            elif k == "list":
+                self.derivs[c[1]].list(self._pricer(c[2], form), cost=1e-4)
+            elif k == "delist":
+                self.derivs[c[1]].delist()
+            elif k == "default":
+                torch.set_default_dtype(tdt(torch, c[1]))
+            else:
+                raise InternalError(f"unknown command {c}")
+            return ("ok", None)
+        except InternalError:
+            raise
+        except Exception as e:  # noqa
+            return isys_kind_of_error(e)
+
+    # ---- queries
+    def _refs(self, k, cfg):
+        if cfg["hedge"] is None:
+            return None, 1
+        return [self.prims[r[1]] if r[0] == "prim" else self.derivs[r[1]] for r in cfg["hedge"]], len(cfg["hedge"])
+
+    def _hedger(self, cfg, H):
+        from pfhedge.nn import Hedger, Naked
+        torch = self.torch
+        feats = [isys_feature(n) for n in cfg["feats"]]
+        if cfg["model"] == "naked":
+            m = Naked(H)
+        else:
+            m = torch.nn.Linear(sum(H if n == "prev_hedge" else 1 for n in cfg["feats"]), H)
+        h = Hedger(m, feats)
+        if cfg["model"] != "naked" and cfg["model"][1] is not None:
+            h.to(tdt(torch, cfg["model"][1]))
+        return h
+
+    def _tensor(self, t):
+        return ("tensor", short(self.torch, t.dtype), list(t.shape))
+
+    def ask(self, q):
+        torch = self.torch
+        k = q[0]
+        d = self.derivs[q[1]]
+        if k in ("dtype", "payoff", "listed"):
+            fn = {"dtype": lambda: d.dtype, "payoff": d.payoff, "listed": lambda: d.spot}[k]
+        elif k == "feature":
+            ft = isys_feature(q[2]).of(d)
+            fn = lambda: ft.get(None)       # noqa
+        elif k in ("hedge", "pl", "portfolio"):
+            refs, H = self._refs(q[1], q[2])
+            h = self._hedger(q[2], H)
+            fn = {"hedge": lambda: h.compute_hedge(d, hedge=refs), "pl": lambda: h.compute_pl(d, hedge=refs),
+                  "portfolio": lambda: h.compute_portfolio(d, hedge=refs)}[k]
+        else:
+            raise InternalError(f"unknown query {q}")
+        try:
+            with torch.no_grad():
+                v = fn()
+        except Exception as e:  # noqa
+            return isys_kind_of_error(e)
+        if k == "dtype":
+            return ("dtype", None if v is None else short(torch, v))
+        return self._tensor(v)
+
+    def run(self, c, form):
+        torch = self.torch
+        d = self.derivs[c[1]]
+        refs, H = self._refs(c[1], c[2])
+        h = self._hedger(c[2], H)
+        try:
+            with torch.no_grad():
+                if form == "price":
+                    v = h.price(d, hedge=refs, n_paths=c[3], n_times=c[5])
+                else:
+                    v = h.compute_loss(d, hedge=refs, n_paths=c[3], n_times=c[5], enable_grad=False)
+        except Exception as e:  # noqa
+            return isys_kind_of_error(e)
+        return self._tensor(v)
+
+
+def isys_run_real(torch, I, scen):
+    """execute a scenario on the real objects: [(kind, outcome, observation, objects)] per command"""
+    try:
+        rs = ISysReal(torch, I, scen)
+    except TypeError:
+        torch.set_default_dtype(torch.float32)
+        return None, None
+    obs0 = rs.observe()
+    out = []
+    try:
+        for c, form in zip(scen["cmds"], scen["forms"]):
+            if c[0] == "ask":
+                out.append(("ask", rs.ask(c[1]), None, None))
+            elif c[0] == "run":
+                r = rs.run(c, form)
+                o, ob = rs.observe()
+                out.append(("run", r, o, ob))
+            else:
+                r = rs.apply(c, form)
+                o, ob = rs.observe()
+                out.append(("op", r, o, ob))
+    finally:
+        torch.set_default_dtype(torch.float32)
+    return obs0, out
+
+
+def isys_observe_single(torch, inst, keep):
+    """observation of a system that consists of one primary (used by harness/c11.py): (observation, tensor objects)"""
+    nb = list(inst.named_buffers())
+    keep.extend(b for _, b in nb)
+    return ({"prims": [{"declared": None if inst.dtype is None else short(torch, inst.dtype),
+                        "buffers": [[n, short(torch, b.dtype), list(b.shape)] for n, b in nb]}],
+             "listed": [], "ambient": short(torch, torch.get_default_dtype())}, [{n: b for n, b in nb}])
+
+
+def isys_request(scen):
+    return {"op": "instr_sys", "ambient": scen["ambient"],
+            "prims": [[ISYS_KIND[cls], init] for cls, init in scen["prims"]],
+            "derivs": [[ul, ISYS_DERIV[cls]] for cls, ul, _ in scen["derivs"]],
+            "cmds": scen["cmds"]}
+
+
+def _isys_model_obs(st):
+    return {"prims": [{"declared": p["declared"], "buffers": [[b[0], b[1], b[2]] for b in p["buffers"]]} for p in st["prims"]],
+            "listed": [d["listed"] is not None for d in st["derivs"]], "ambient": st["ambient"]}
+
+
+def isys_compare(ctx, scen, real, mo, tag="instr_sys"):
+    """compare the real execution with the model's replies, exactly; returns the number of compared answers"""
+    obs0, out = real
+
+    def _dis(tag_, case_, impl_, model_):
+        ctx.stats["instr_sys:disagreements"] += 1
+        ctx.disagree(tag_, case_, impl_, model_)
+    case = {k: scen[k] for k in ("ambient", "prims", "derivs")} | {"cmds": scen["cmds"], "forms": scen["forms"]}
+    if "ok" not in mo["init"]:
+        _dis(tag, case, "constructed", mo["init"])
+        return 0
+    st_m = mo["init"]["ok"]
+    (o_prev, objs_prev) = obs0
+    if _isys_model_obs(st_m) != o_prev:
+        _dis(tag, case | {"step": "init"}, o_prev, _isys_model_obs(st_m))
+        return 0
+    compared = 0
+    last_sim = [None] * len(scen["prims"])          # what the harness knows: shape of the last successful simulate per primary
+    for i, ((kind, r, o, objs), mm, c) in enumerate(zip(out, mo["steps"], scen["cmds"])):
+        c2 = case | {"step": i, "command": c}
+        mr = mm["r"]
+        if r[0] == "backend":
+            ctx.stats["backend_unsupported"] += 1
+            if kind == "ask":
+                continue
+            break               # an operation the CPU backend cannot do in this dtype: the history ends here
+        if r == ("err", "recursion_error"):
+            break               # (Vasicek defect, reported by the predicate part)
+        # ---- the reply
+        if r[0] == "ok":
+            same = "done" in mr
+        elif r[0] == "err":
+            same = mr.get("err") == r[1]
+        elif r[0] == "dtype":
+            same = "dtype" in mr and mr["dtype"] == r[1]
+        else:
+            same = "tensor" in mr and mr["tensor"]["dtype"] == r[1] and (r[2] is None or mr["tensor"]["shape"] == r[2])
+        nonfloat = any(b[1] not in ("f16", "bf16", "f32", "f64") for p in o_prev["prims"] for b in p["buffers"])
+        if kind != "op" and nonfloat and not (kind == "ask" and c[1][0] == "dtype"):
+            ctx.stats["isys:nonfloating_buffer_skipped"] += 1      # outside the model's domain (see Model/InstrSys.lean header)
+            same = True if kind == "ask" else same
+            if kind == "run":
+                break
+        else:
+            compared += 1
+            ctx.stats[f"isys:{c[0] if c[0] != 'ask' else 'ask_' + c[1][0]}:{r[0] if r[0] != 'err' else r[1]}"] += 1
+        if not same:
+            _dis(tag, c2, list(r), mr)
+            break
+        if kind == "ask":
+            continue
+        # ---- the state after an operation / a run
+        st_m2 = mm["state"]
+        if _isys_model_obs(st_m2) != o:
+            _dis(tag, c2 | {"what": "state"}, o, _isys_model_obs(st_m2))
+            break
+        bad = None
+        for pi, (pm_old, pm_new) in enumerate(zip(st_m["prims"], st_m2["prims"])):
+            old = {b[0]: b for b in pm_old["buffers"]}
+            for b in pm_new["buffers"]:
+                if b[0] in old and b[0] in objs_prev[pi] and b[0] in objs[pi]:
+                    same_obj = objs[pi][b[0]] is objs_prev[pi][b[0]]
+                    model_same = (b[3] == old[b[0]][3] and b[1] == old[b[0]][1])
+                    if same_obj != model_same:
+                        bad = {"primary": pi, "buffer": b[0], "same_tensor_object": same_obj, "model_generation": [old[b[0]][3], b[3]],
+                               "model_dtype": [old[b[0]][1], b[1]]}
+            # the model's record of the last simulate against the harness's own
+            if r[0] == "ok" and c[0] in ("prim_sim", "deriv_sim"):
+                tgt = c[1] if c[0] == "prim_sim" else scen["derivs"][c[1]][1]
+                if tgt == pi:
+                    last_sim[pi] = [c[2], c[3]]
+            if kind == "run" and scen["derivs"][c[1]][1] == pi and c[5] >= 1:
+                last_sim[pi] = [c[3], c[4]]
+            ls = pm_new["last_sim"]
+            if (ls[0] if ls is not None else None) != last_sim[pi]:
+                bad = {"primary": pi, "last_simulate_shape_model": ls, "harness": last_sim[pi]}
+        if bad:
+            _dis(tag, c2 | {"what": "buffer identity / generation"}, bad, "generation unchanged <=> same tensor object")
+            break
+        st_m, o_prev, objs_prev = st_m2, o, objs
+    return compared
+
+
+def _isys_cfg(g, scen, k, rich):
+    """a hedger configuration for derivative k"""
+    nd, npr = len(scen["derivs"]), len(scen["prims"])
+    hedge = None
+    if rich and g.chance(0.45):
+        pool = [["prim", i] for i in range(npr)] + [["deriv", j] for j in range(nd)]
+        hedge = [g.choice(pool) for _ in range(g.choice([1, 1, 2]))]
+    nf = g.choice([1, 2, 2, 3])
+    pool = ["moneyness", "log_moneyness", "time_to_maturity", "underlier_spot", "volatility", "variance", "zeros", "ones", "barrier",
+            "max_moneyness", "prev_hedge", "prev_hedge", "spot", "underlier_log_spot", "max_log_moneyness"]
+    feats = [g.choice(pool) for _ in range(nf)]
+    model = g.weighted([("naked", 2), ("lin_none", 2), ("lin", 3)])
+    model = "naked" if model == "naked" else ["linear", None if model == "lin_none" else g.choice(["f16", "bf16", "f32", "f64"])]
+    return {"model": model, "feats": feats, "hedge": hedge}
+
+
+def _isys_queries(g, scen, n, rich=True):
+    qs = []
+    nd = len(scen["derivs"])
+    for _ in range(n):
+        k = g.randint(0, nd - 1)
+        kind = g.weighted([("dtype", 1), ("payoff", 1.5), ("feature", 3), ("listed", 1.5), ("hedge", 3), ("pl", 2), ("portfolio", 1.5)])
+        if kind in ("dtype", "payoff", "listed"):
+            qs.append(["ask", [kind, k]])
+        elif kind == "feature":
+            qs.append(["ask", ["feature", k, g.choice(ISYS_FEATS)]])
+        else:
+            qs.append(["ask", [kind, k, _isys_cfg(g, scen, k, rich)]])
+    return qs
+
+
+def isys_gen_scenario(g, length, nq):
+    """a random system and a random history with queries after every operation"""
+    fl = ["f16", "bf16", "f32", "f64"]
+    stocks = ["BrownianStock", "HestonStock", "MertonJumpStock", "KouJumpStock", "RoughBergomiStock", "LocalVolatilityStock"]
+    npr = g.choice([1, 1, 2])
+    prims = [[g.choice(stocks), g.choice([None, None, "f32", "f64", "f16", "bf16"])] for _ in range(npr)]
+    if g.chance(0.15):
+        prims.append([g.choice(["CIRRate", "VasicekRate"]), g.choice([None, "f32", "f64"])])
+    nstock = npr
+    nd = g.choice([1, 2, 2, 3])
+    derivs = [[g.choice(list(ISYS_DERIV)), g.randint(0, nstock - 1), g.choice([1, 2, 3, 3, 5])] for _ in range(nd)]
+    scen = {"ambient": g.choice(["f32", "f32", "f64"]), "prims": prims, "derivs": derivs, "cmds": [], "forms": []}
+
+    def add(c, form=None):
+        scen["cmds"].append(c)
+        scen["forms"].append(form)
+
+    def target():
+        t = g.weighted([("dtype", 5), ("none", 1), ("tensor", 1.5), ("prim", 1), ("deriv", 1), ("ext", 1), ("int", 0.6)])
+        if t == "dtype":
+            return ["dtype", g.choice(fl)]
+        if t == "none":
+            return ["dtype", None]
+        if t == "tensor":
+            return ["tensor", g.choice(fl + ["i64"])]
+        if t == "prim":
+            return ["prim", g.randint(0, len(prims) - 1)]
+        if t == "deriv":
+            return ["deriv", g.randint(0, nd - 1)]
+        if t == "ext":
+            return ["ext", g.choice(fl + [None])]
+        return ["dtype", g.choice(["i64", "i32"])]
+    for _ in range(length):
+        k = g.weighted([("prim_to", 2), ("deriv_to", 3), ("prim_sim", 2), ("deriv_sim", 4), ("prim_reg", 1.2), ("list", 1.5), ("delist", 0.6),
+                        ("default", 0.6), ("run", 1.0)])
+        if k in ("prim_to", "deriv_to"):
+            add([k, g.randint(0, (len(prims) if k == "prim_to" else nd) - 1), target()], g.choice(["to", "method", "kw"]))
+        elif k == "prim_sim":
+            i = g.randint(0, len(prims) - 1)
+            # (generate_rough_bergomi needs at least two time steps: a horizon of zero is not simulated on it, as in harness/c11.py)
+            add(["prim_sim", i, g.choice([1, 2, 3]), g.choice([2, 3, 4, 6] if prims[i][0] == "RoughBergomiStock" else [1, 2, 3, 4, 6])])
+        elif k == "deriv_sim":
+            j = g.randint(0, nd - 1)
+            add(["deriv_sim", j, g.choice([1, 2, 3]), isys_steps(derivs[j][2] / 250)])
+        elif k == "prim_reg":
+            i = g.randint(0, len(prims) - 1)
+            name = g.choice(["extra", "extra", "spot"] + ISYS_SIM[ISYS_KIND[prims[i][0]]])
+            dt_ = g.choice(fl + ["f32", "f64"]) if g.chance(0.85) else "i64"
+            add(["prim_reg", i, name, dt_, [g.choice([1, 2, 3]), g.choice([1, 2, 4, 4])]])
+        elif k == "list":
+            j = g.randint(0, nd - 1)
+            buf = g.choice(["spot", "spot"] + ISYS_SIM[ISYS_KIND[prims[derivs[j][1]][0]]] + ["extra"])
+            add(["list", j, buf], g.choice(["intrinsic", "affine"]))
+        elif k == "delist":
+            add(["delist", g.randint(0, nd - 1)])
+        elif k == "default":
+            add(["default", g.choice(["f32", "f64"])])
+        else:
+            j = g.randint(0, nd - 1)
+            add(["run", j, _isys_cfg(g, scen, j, True), g.choice([1, 2, 3]), isys_steps(derivs[j][2] / 250), g.choice([1, 1, 2, 3])],
+                g.choice(["loss", "price"]))
+        for q in _isys_queries(g, scen, nq):
+            add(q)
+    return scen
+
+
+ISYS_NAKED3 = {"model": "naked", "feats": ["moneyness", "time_to_maturity", "zeros"], "hedge": None}
+
+
+def isys_from_case(case, obs0, steps, snap0, ops):
+    """one of the sequences of the predicate part (run_case), re-read as a history of a system: (scenario, real execution) in the
+    format of isys_run_real.  Result dtypes the predicate part computed become queries (their shapes were not recorded)."""
+    prim, listed = case["primary"], case["listed"]
+    has_deriv = prim not in ("CIRRate", "VasicekRate")
+    derivs = ([["EuropeanOption", 0, 3]] + ([["EuropeanOption", 0, 3]] if listed else [])) if has_deriv else []
+    scen = {"ambient": case["ambient"], "prims": [[prim, case["init"]]], "derivs": derivs, "cmds": [], "forms": []}
+    via_k = 1 if listed else 0
+    lflags = [False, True] if listed else ([False] if has_deriv else [])
+
+    def obs(o, snap, flags):
+        return ({"prims": [{"declared": o["declared"], "buffers": [[n, d, snap["shapes"][n]] for n, d in o["buffers"]]}],
+                 "listed": list(flags), "ambient": snap["ambient"]}, [snap["objs"]])
+    real0 = obs(obs0, snap0, [False] * len(lflags))
+    out = []
+
+    def add(c, entry):
+        scen["cmds"].append(c)
+        scen["forms"].append(None)
+        out.append(entry)
+    prev = (obs0, snap0)
+    if listed:
+        o_, ob_ = obs(obs0, snap0, lflags)
+        add(["list", 1, "spot"], ("op", ("ok", None), o_, ob_))
+    for op, (st, o, extra) in zip(ops, steps):
+        if op[0] == "to_cplx":
+            continue
+        via = case["via_derivative"] and has_deriv and op[0] in ("to", "method", "to_tensor", "to_inst", "simulate")
+        if op[0] in ("to", "method"):
+            c = ["deriv_to", via_k, ["dtype", op[1]]] if via else ["prim_to", 0, ["dtype", op[1]]]
+        elif op[0] == "to_tensor":
+            c = ["deriv_to", via_k, ["tensor", op[1]]] if via else ["prim_to", 0, ["tensor", op[1]]]
+        elif op[0] == "to_inst":
+            c = ["deriv_to", via_k, ["ext", op[1]]] if via else ["prim_to", 0, ["ext", op[1]]]
+        elif op[0] == "simulate":
+            c = ["deriv_sim", via_k, 2, isys_steps(3 / 250)] if via else ["prim_sim", 0, 2, isys_steps(3 / 250)]
+        elif op[0] == "register":
+            c = ["prim_reg", 0, op[1], op[2], [2, 4]]
+        else:
+            c = ["default", op[1]]
+        snap = extra["_isys"]
+        o_, ob_ = obs(o, snap, lflags)
+        add(c, ("op", tuple(st), o_, ob_))
+        if st[0] == "backend" or st == ("err", "recursion_error"):
+            break
+        if "results" in extra:
+            res = extra["results"]
+            qs = [("payoff", ["payoff", 0]), ("moneyness", ["feature", 0, "moneyness"]), ("ttm", ["feature", 0, "time_to_maturity"]),
+                  ("hedge", ["hedge", 0, ISYS_NAKED3]), ("pl", ["pl", 0, ISYS_NAKED3])]
+            if listed:
+                lh = ISYS_NAKED3 | {"hedge": [["deriv", 1]]}
+                qs += [("listed_price", ["listed", 1]), ("spot_feature", ["feature", 1, "spot"]),
+                       ("portfolio_listed_hedge", ["portfolio", 0, lh]), ("pl_listed_hedge", ["pl", 0, lh])]
+            for key, q in qs:
+                if key in res:
+                    add(["ask", q], ("ask", ("tensor", res[key], None), None, None))
+        if "_isys_ensemble" in extra:
+            ens = extra["ensemble"]
+            for key, (o2, snap2) in zip(("loss", "price"), extra["_isys_ensemble"]):
+                o_, ob_ = obs(o2, snap2, lflags)
+                add(["run", 0, ISYS_NAKED3, 2, isys_steps(3 / 250), case["n_times"]], ("run", ("tensor", ens[key], None), o_, ob_))
+    return scen, (real0, out)
+
+
+ISYS_EXH_ALPHABET = [
+    (["deriv_to", 0, ["dtype", "f64"]], "to"), (["deriv_to", 1, ["dtype", "f16"]], "method"), (["prim_to", 0, ["dtype", None]], "to"),
+    (["deriv_sim", 0, 2, 4], None), (["deriv_sim", 1, 3, 3], None), (["prim_reg", 0, "extra", "i64", [2, 3]], None),
+    (["list", 1, "spot"], "affine"), (["delist", 1], None), (["default", "f64"], None), (["prim_to", 0, ["deriv", 1]], "to"),
+]
+ISYS_EXH_END = [
+    ["ask", ["dtype", 0]], ["ask", ["payoff", 0]], ["ask", ["feature", 1, "time_to_maturity"]], ["ask", ["feature", 0, "volatility"]],
+    ["ask", ["listed", 1]],
+    ["ask", ["hedge", 0, {"model": ["linear", None], "feats": ["moneyness", "volatility"], "hedge": None}]],
+    ["ask", ["hedge", 0, {"model": ["linear", "f64"], "feats": ["moneyness", "prev_hedge"], "hedge": None}]],
+    ["ask", ["pl", 0, {"model": "naked", "feats": ["moneyness", "time_to_maturity"], "hedge": [["deriv", 1]]}]],
+    ["run", 1, {"model": ["linear", "f16"], "feats": ["log_moneyness"], "hedge": None}, 2, 3, 2],
+    ["ask", ["payoff", 1]],
+]
+
+
+def isys_exhaustive(depth, letters):
+    """all sequences of `depth` operations over the given letters of ISYS_EXH_ALPHABET on: a Heston stock (dtype None / float64), a European option
+    (maturity 3/250) and a lookback option (maturity 2/250) on it; two cheap queries after every operation, a battery at the end"""
+    scens = []
+    for init in (None, "f64"):
+        for seq in itertools.product([ISYS_EXH_ALPHABET[i] for i in letters], repeat=depth):
+            scen = {"ambient": "f32", "prims": [["HestonStock", init]], "derivs": [["EuropeanOption", 0, 3], ["LookbackOption", 0, 2]],
+                    "cmds": [], "forms": []}
+            for c, form in seq:
+                scen["cmds"] += [c, ["ask", ["dtype", 1]], ["ask", ["payoff", 0]]]
+                scen["forms"] += [form, None, None]
+            scen["cmds"] += ISYS_EXH_END
+            scen["forms"] += [None] * 8 + ["loss", None]
+            scens.append(scen)
+    return scens
 
 
 def check(ctx):
@@ -250,9 +794,12 @@ def check(ctx):
         ln = g.randint(1, 12 if ctx.tier == "quick" else 40)
         cases.append((prim, init, amb, gen_ops(g, prim, ln), g.chance(0.4), g.chance(0.5), g.choice([None, 1, 2, 2, 3])))
     reqs, metas = [], []
+    sys_records = []
     torch.manual_seed(ctx.seed % (2 ** 31))
     for prim, init, amb, ops, use_deriv, listed, n_times in cases:
-        case, obs0, steps = run_case(torch, I, ctx, prim, init, amb, ops, use_deriv, listed, n_times)
+        case, obs0, steps, snap0 = run_case(torch, I, ctx, prim, init, amb, ops, use_deriv, listed, n_times)
+        if obs0 is not None and init not in CPLX:
+            sys_records.append((case, obs0, steps, snap0, ops))
         ctx.case(case, nontrivial=len(ops) >= 2, tag="dt_seq")
         ctx.traces += 1
         ctx.stats[f"primary={prim}"] += 1
@@ -372,8 +919,43 @@ def check(ctx):
                 if any(v != mm["ok"]["result"] for v in extra["results"].values()):
                     ctx.disagree("dt_results", case | {"step": i}, extra["results"], mm["ok"]["result"])
                     break
+    # ---------------- the system model (Model/InstrSys.lean)
+    sys_items = []                                  # (tag, scenario, real execution)
+    t_sys = time.time()
+    for case, obs0, steps, snap0, ops in sys_records:
+        scen, real = isys_from_case(case, obs0, steps, snap0, ops)
+        sys_items.append(("from_sequences", scen, real))
+    exh = isys_exhaustive(3, range(10))
+    if ctx.tier != "quick":
+        # depth 4 over: cast through either derivative, simulate through either, register_buffer, list, ambient default
+        exh += isys_exhaustive(4, [0, 1, 3, 4, 5, 6, 8])
+    rnd = [isys_gen_scenario(g, g.randint(1, 8 if ctx.tier == "quick" else 14), 3) for _ in range(500 if ctx.tier == "quick" else 3000)]
+    ctx.extra["instr_sys_exhaustive_sequences"] = len(exh)
+    for tag, scens in (("exhaustive", exh), ("random", rnd)):
+        for scen in scens:
+            real = isys_run_real(torch, I, scen)
+            if real[0] is None:
+                raise InternalError(f"system scenario could not be constructed: {scen['prims']}")
+            ctx.case({k: scen[k] for k in ("ambient", "prims", "derivs", "cmds", "forms")}, nontrivial=len(scen["cmds"]) >= 2, tag="instr_sys:" + tag)
+            ctx.traces += 1
+            sys_items.append((tag, scen, real))
+    t_real = time.time() - t_sys
+    try:
+        souts = ctx.driver([isys_request(scen) for _, scen, _ in sys_items])
+    except DriverBroken as e:
+        ctx.ties_broken.append({"kind": "driver", "detail": str(e)[:1500]})
+        souts = []
+    for (tag, scen, real), mo in zip(sys_items, souts):
+        if "bad" in mo:
+            ctx.ties_broken.append({"kind": "driver", "detail": "instr_sys: " + str(mo)[:500]})
+            break
+        n_cmp = isys_compare(ctx, scen, real, mo)
+        ctx.stats[f"instr_sys:{tag}:compared_answers"] += n_cmp
+    ctx.extra["instr_sys_wall_s"] = {"real_objects": round(t_real, 1), "model_and_comparison": round(time.time() - t_sys - t_real, 1)}
     return ctx.finish(
-        rule="exhaustive sequences of depth <=3 (quick) / 4 (thorough) over {to f64, to f16, to(device), simulate, register int buffer, to(instrument), "
+        rule="SYSTEM model (instr_sys): every sequence below re-read as a system history, plus exhaustive sequences of derivative-level "
+             "operations (depth 3 over a 10-letter alphabet; thorough: also depth 4 over 7 of the letters) x init in {None, f64}, plus random systems and histories (see module docstring); "
+             "exhaustive sequences of depth <=3 (quick) / 4 (thorough) over {to f64, to f16, to(device), simulate, register int buffer, to(instrument), "
              "default f64} x init in {None, f64}; random sequences (length <= 12 / 40) over all cast forms on all 8 primaries, directly and through a "
              "derivative (half of them with a listed option on the instrument whose price is read after every step), casts to complex dtypes in all "
              "to() forms and the constructor, loss/price with n_times in {1,2,3} at the end, both global defaults; non-trivial = >= 2 operations; distinct = sha1 of canonical case")
